@@ -39,6 +39,16 @@ func shrinkInput(in *Input, fails func(*Input) bool, budget time.Duration) (*Inp
 		}
 		return false
 	}
+	// the pseudo-random tail of the schedule becomes explicit decisions (same run), which the
+	// passes below can then cut and zero one by one
+	try(func(c *Input) bool {
+		if c.TailPct == 0 {
+			return false
+		}
+		c.Choices = materialiseTail(c.Choices, c.TailSeed, c.TailPct, 4000)
+		c.TailSeed, c.TailPct = 0, 0
+		return true
+	})
 	for pass := 0; pass < 6 && time.Now().Before(deadline); pass++ {
 		progress := false
 		// generations (never the first one: the prelude runs there)
@@ -163,6 +173,7 @@ func shrinkInput(in *Input, fails func(*Input) bool, budget time.Duration) (*Inp
 		// knobs
 		for _, f := range []func(c *Input) bool{
 			func(c *Input) bool { ch := len(c.Cfg.SitesOff) > 0; c.Cfg.SitesOff = nil; return ch },
+			func(c *Input) bool { ch := c.TailPct != 0; c.TailSeed, c.TailPct = 0, 0; return ch },
 			func(c *Input) bool {
 				if len(c.Cfg.FineSites) < 2 {
 					return false
@@ -261,6 +272,14 @@ func shrinkLockerIn(in *LockerIn, fails func(*LockerIn) bool, budget time.Durati
 		}
 		return false
 	}
+	try(func(c *LockerIn) bool {
+		if c.TailPct == 0 {
+			return false
+		}
+		c.Choices = materialiseTail(c.Choices, c.TailSeed, c.TailPct, 3000)
+		c.TailSeed, c.TailPct = 0, 0
+		return true
+	})
 	for pass := 0; pass < 6 && time.Now().Before(deadline); pass++ {
 		progress := false
 		for ti := len(cur.Tasks) - 1; ti >= 0; ti-- {
@@ -339,6 +358,9 @@ func shrinkLockerIn(in *LockerIn, fails func(*LockerIn) bool, budget time.Durati
 		if try(func(c *LockerIn) bool { ch := len(c.SitesOff) > 0; c.SitesOff = nil; return ch }) {
 			progress = true
 		}
+		if try(func(c *LockerIn) bool { ch := c.TailPct != 0; c.TailSeed, c.TailPct = 0, 0; return ch }) {
+			progress = true
+		}
 		if len(cur.Choices) > 0 {
 			if try(func(c *LockerIn) bool { c.Choices = nil; return true }) {
 				progress = true
@@ -378,4 +400,14 @@ func shrinkLockerIn(in *LockerIn, fails func(*LockerIn) bool, budget time.Durati
 		}
 	}
 	return cur, tries
+}
+
+// materialiseTail writes out the decisions Sched.pick would derive from (seed, pct) for the
+// steps beyond the explicit choices.
+func materialiseTail(choices []int, seed uint64, pct int, upTo int) []int {
+	out := append([]int(nil), choices...)
+	for i := len(out); i < upTo; i++ {
+		out = append(out, tailChoice(seed, pct, i))
+	}
+	return out
 }
